@@ -32,7 +32,7 @@ BinLit(op, i, kind, vals) ==
   /\ kind \in {"int", "float", "complex", "npscalar"} => Len(vals) = 1 /\ Len(vals[1]) = 1
   /\ kind = "int" => vals[1][1][2] = 0
   /\ kind = "float" => vals[1][1][2] = 0
-  /\ kind \in {"npscalar", "ndarray"} => op \in {"add", "sub", "mul"}        \* numpy operands on the right only
+  \* (numpy scalars and ndarrays are operands like any other, on either side: numpy must defer to the reflected operators)
   /\ kind = "list2d" <=> Len(vals) = 2
   /\ kind = "list2d" => heap[i].cls = "O" /\ Rows(heap[i]) = 2
   /\ LET b == LitObj(heap[i].cls, vals) IN
